@@ -177,11 +177,11 @@ theorem c11_header_state_sound (root : PCell) (h sh : Bytes) (hacc : checkBlockH
 roots, both pass `check_proof` (against the block root hash resp. the state hash `sh` that the header's Merkle
 update commits to), the state proof's child has level-0 hash `sh`, and the REPRESENTATION hash (`Cell.hash`) of the
 supplied account state equals the level-0 hash of the account cell located in the proved state. -/
-theorem c11_account_sound (locate : PCell → Bytes → Option PCell) (roots : List PCell) (blk addr : Bytes) (state : PCell)
-    (hacc : checkAccountProof locate roots blk addr state = true) :
+theorem c11_account_sound (O : Opaque) (roots : List PCell) (blk addr : Bytes) (state : PCell)
+    (hacc : checkAccountProof O roots blk addr state = true) :
     ∃ p0 p1 hdr st acc sh, roots = [p0, p1] ∧ checkProof p0 blk = true ∧ p0.refs[0]? = some hdr ∧
       checkBlockHeaderProofState hdr blk = some sh ∧ p1.refs[0]? = some st ∧ st.info.getHash 0 = some sh ∧
-      checkProof p1 sh = true ∧ locate st addr = some acc ∧ acc.info.getHash 0 = some state.info.hash := by
+      checkProof p1 sh = true ∧ locateAccount O st addr = some acc ∧ acc.info.getHash 0 = some state.info.hash := by
   unfold checkAccountProof at hacc
   split at hacc
   · rename_i p0 p1
@@ -211,13 +211,13 @@ theorem c11_account_sound (locate : PCell → Bytes → Option PCell) (roots : L
   · cases hacc
 
 /-- A claimed account state whose own hash is not the committed one is rejected. -/
-theorem c11_account_reject (locate : PCell → Bytes → Option PCell) (roots : List PCell) (blk addr : Bytes) (state : PCell)
-    (hne : ∀ st acc, locate st addr = some acc → acc.info.getHash 0 ≠ some state.info.hash) :
-    checkAccountProof locate roots blk addr state = false := by
-  cases hc : checkAccountProof locate roots blk addr state with
+theorem c11_account_reject (O : Opaque) (roots : List PCell) (blk addr : Bytes) (state : PCell)
+    (hne : ∀ st acc, locateAccount O st addr = some acc → acc.info.getHash 0 ≠ some state.info.hash) :
+    checkAccountProof O roots blk addr state = false := by
+  cases hc : checkAccountProof O roots blk addr state with
   | false => rfl
   | true =>
-    obtain ⟨_, _, _, st, acc, _, _, _, _, _, _, _, _, hl, hh⟩ := c11_account_sound locate roots blk addr state hc
+    obtain ⟨_, _, _, st, acc, _, _, _, _, _, _, _, _, hl, hh⟩ := c11_account_sound O roots blk addr state hc
     exact absurd hh (hne st acc hl)
 
 /-- The F12 scenario: the supplied "state" is a spec-valid PRUNED-BRANCH cell (whatever hashes it carries, e.g. the
@@ -225,15 +225,15 @@ committed one as its level-0 hash).  Its `Cell.hash` is `H` of its own represent
 exotic bit and a non-zero level mask.  If the account cell `acc` found in the proved state has as level-0 hash the
 hash of a representation `d1 :: rest` of a NON-pruned cell (`d1 = r + 8e`, r ≤ 4, level part 0) and `H` does not
 collide on these two representations, the check rejects. -/
-theorem c11_account_reject_pruned (H : Bytes → Bytes) (locate : PCell → Bytes → Option PCell) (roots : List PCell)
+theorem c11_account_reject_pruned (H : Bytes → Bytes) (O : Opaque) (roots : List PCell)
     (blk addr : Bytes) (bits : Bits) (i : CellInfo)
     (wf : NodeWF H .pruned bits []) (hc : construct H 1 bits [] = some i)
     (r : Nat) (e : Bool) (rest : Bytes) (hr : r ≤ 4)
-    (hcommitted : ∀ st acc, locate st addr = some acc → acc.info.getHash 0 = some (H (Spec.d1 r e 0 :: rest)))
+    (hcommitted : ∀ st acc, locateAccount O st addr = some acc → acc.info.getHash 0 = some (H (Spec.d1 r e 0 :: rest)))
     (nocoll : H (Spec.d1 r e 0 :: rest) =
         H ([Spec.d1 0 true (Spec.nodeMask .pruned bits []), Spec.d2 bits.length] ++ Spec.dataBytes bits) →
       Spec.d1 r e 0 :: rest = [Spec.d1 0 true (Spec.nodeMask .pruned bits []), Spec.d2 bits.length] ++ Spec.dataBytes bits) :
-    checkAccountProof locate roots blk addr (.mk i []) = false := by
+    checkAccountProof O roots blk addr (.mk i []) = false := by
   apply c11_account_reject
   intro st acc hl
   rw [hcommitted st acc hl]
@@ -253,11 +253,11 @@ the block header and of the shard state), the header's Merkle update commits to 
 cell located in the (pruned) state proof has as level-0 hash the representation hash of the supplied state — by
 pruning invariance (c02_prune_invariant) that holds whether the account cell is present in full or pruned — then
 `check_account_proof` returns. -/
-theorem c11_account_complete (locate : PCell → Bytes → Option PCell) (p0 p1 hdr st acc state : PCell) (blk addr sh : Bytes)
+theorem c11_account_complete (O : Opaque) (p0 p1 hdr st acc state : PCell) (blk addr sh : Bytes)
     (h0 : checkProof p0 blk = true) (hhdr : p0.refs[0]? = some hdr) (hsh : checkBlockHeaderProofState hdr blk = some sh)
     (hst : p1.refs[0]? = some st) (hs : st.info.getHash 0 = some sh) (h1 : checkProof p1 sh = true)
-    (hl : locate st addr = some acc) (hh : acc.info.getHash 0 = some state.info.hash) :
-    checkAccountProof locate [p0, p1] blk addr state = true := by
+    (hl : locateAccount O st addr = some acc) (hh : acc.info.getHash 0 = some state.info.hash) :
+    checkAccountProof O [p0, p1] blk addr state = true := by
   simp [checkAccountProof, h0, hhdr, hsh, hst, hs, h1, hl, hh]
 
 /-! ## binding: what an accepted hash pins down -/
